@@ -4,7 +4,7 @@ from .. import spec
 from ..gen import G
 from ..common import BookCase, book_obs, sig, run_apps, app
 
-THEOREMS = []
+THEOREMS = ['depth_exact', 'outcome_order_independent', 'only_depth_error', 'chain_shorter', 'chain_le', 'chain_of_reach', 'cyclic_fails', 'shallow_succeeds']
 LEVEL = 'proof'
 RULE = ('chains of every length N-2..N+2, cycles of length 1..4 reached through shallow and deep paths, DAGs with sharing, '
         'N in 1..12; both entry points repeated (runtime map order) and explicit visiting orders (all permutations for <= 4 recipes); '
